@@ -87,22 +87,26 @@ def write_fixture(wd):
     c15.write_fixture(wd)
 
 
-def load_pair(fmt, epoch=0.0):
+def load_pair(fmt, epoch=0.0, shifted=False):
     ref, est1, _ = c15.load_model(fmt, epoch)
     if fmt == "euroc":
         # evo_ape euroc: reference from the csv, estimate from a TUM file
-        _, est_tum, _ = c15.load_model("tum", epoch)
-        return ref, est_tum
+        _, est1, _ = c15.load_model("tum", epoch)
+    if shifted and est1.stamps is not None:
+        # estimate clock 1 s behind (used with --t_offset 1.0)
+        est1.stamps = [x - 1.0 + epoch for x in
+                       c15.load_model("tum")[1].stamps]
     return ref, est1
 
 
-def file_args(fmt, epoch=0.0):
+def file_args(fmt, epoch=0.0, shifted=False):
     e = "_e" if epoch else ""
+    sft = "_s" if shifted else ""
     if fmt == "tum":
-        return ["tum", "ref%s.txt" % e, "est1%s.txt" % e]
+        return ["tum", "ref%s.txt" % e, "est1%s%s.txt" % (sft, e)]
     if fmt == "kitti":
         return ["kitti", "ref.kit", "est1.kit"]
-    return ["euroc", "ref%s.csv" % e, "est1%s.txt" % e]
+    return ["euroc", "ref%s.csv" % e, "est1%s%s.txt" % (sft, e)]
 
 
 ALIGN_OPTS = {"none": [], "a": ["-a"], "s": ["-s"], "as": ["-a", "-s"],
@@ -113,7 +117,7 @@ ALIGN_OPTS = {"none": [], "a": ["-a"], "s": ["-s"], "as": ["-a", "-s"],
 def common_argv(pt):
     fmt = pt["fmt"]
     epoch = pt.get("epoch", 0.0)
-    argv = file_args(fmt, epoch)
+    argv = file_args(fmt, epoch, pt["t_offset"] == 1.0)
     argv += ["-r", pt["relation"]]
     argv += ALIGN_OPTS[pt["align"]]
     if pt["n_to_align"] != -1:
@@ -134,12 +138,16 @@ def common_argv(pt):
     return argv
 
 
+def timed_shift(pt):
+    return pt["fmt"] != "kitti" and pt["t_offset"] == 1.0
+
+
 def processed_pair(pt):
     """reference pipeline up to (and including) projection.
     -> (ref, est) RTraj; raises pl.Refusal / pl.Ambiguous"""
     fmt = pt["fmt"]
     epoch = pt.get("epoch", 0.0) if fmt != "kitti" else 0.0
-    ref, est = load_pair(fmt, epoch)
+    ref, est = load_pair(fmt, epoch, timed_shift(pt))
     ref, est = ref.copy(), est.copy()
     timed = fmt != "kitti"
     if pt["downsample"]:
